@@ -148,7 +148,8 @@ class Acc:
     def result(self, **extra):
         out = {'states': max(self.points, 1), 'transitions': max(self.trans, 1), 'checks': self.checks,
                'nontrivial': self.nontrivial > 0, 'key': self.keys or None,
-               'outcome': sorted(self.outcomes) or ['none'], 'violations': self.V, 'observed_only': self.observed}
+               'outcome': sorted(self.outcomes) or ['none'], 'violations': self.V, 'observed_only': self.observed,
+               'alg_margin': self.worst}
         out.update(extra)
         return out
 
@@ -332,7 +333,7 @@ def run_linsolve_point(acc, m, sA, sb, A, b, b2, cls, sig, point, solver, lda, c
             if counter is not None:
                 acc.checks += 1
                 if counter['update'] == 0:
-                    acc.violation('override_not_used', {'module': 'LinSolve', 'solver': solver, 'lda': lda}, point,
+                    acc.violation('override_not_used', {'module': 'LinSolve'}, point, solver=solver, lda=lda,
                                   counter=dict(counter), solver_in_module=type(m.solver).__name__)
                     acc.outcomes.add('override_not_used')
                     return
@@ -579,7 +580,7 @@ def run_soe_point(acc, m, sigs, A, f_idx, p_idx, bf, xp, symlabel, point, counte
         if step == 'first' and counter is not None:
             acc.checks += 1
             if counter['update'] == 0:
-                acc.violation('override_not_used', dict(base, solver='splu'), point, counter=dict(counter))
+                acc.violation('override_not_used', dict(base), point, solver='splu', counter=dict(counter))
                 return
         for nm, s0, s in zip(names, before, sigs):
             acc.checks += 1
@@ -722,7 +723,7 @@ def exec_sc(case):
                 if step == 'first' and counter is not None:
                     acc.checks += 1
                     if counter['update'] == 0:
-                        acc.violation('override_not_used', dict(base, solver='splu'), point, counter=dict(counter))
+                        acc.violation('override_not_used', dict(base), point, solver='splu', counter=dict(counter))
                         done = True
                         break
                 acc.checks += 1
